@@ -38,6 +38,8 @@ def shards(tier: str, seed: int):
         # private keys much WIDER than the group's key length (512-bit exponents in a 2- / 4-octet group)
         out += [["dhsmall", h, kl, 0, 2, 0, 200, 512] for kl in (2, 4)]
         out.append(["dhbig", h, 264])
+        out.append(["dhwidths", h])
+        out.append(["seedcontent", h])
     if tier == "quick":
         out += [["dhsmall", "SHA256", kl, 0, 1, 0, 65536] for kl in (2, 4)]
         out += [["dhsmall", h, kl, 1, 2, 0, 4096] for h in HASHES for kl in (2, 4)]
@@ -312,6 +314,45 @@ def run_shard(shard, tier, seed, acc) -> None:
         ephs = range(e0, e1) if pb == 16 else [e_ + (0x5A << (pb - 8)) + (e_ << 200) for e_ in range(e0, e1)]
         shard_dh(G, h, seed, acc, kl, SMALL_P, SMALL_G, pb, kl * 8, range(g0, g1), ephs, "dhsmall" if pb == 16 else f"dhsmallw{pb}")
         acc.sample({"mode": "DH small group", "p": SMALL_P, "g": SMALL_G, "key_length": kl, "hash": h, "ephemeral": f"all {e1-e0} two-byte values"})
+    elif kind == "seedcontent":
+        # seed keys are opaque octets: envelopes (as a DC might hand them out) whose L2 / L1 keys have remarkable CONTENT - all zero, all ones,
+        # zero runs at either end, a text - at positions with L2 < 31 and L2 = 31: both sides derive the reference KEK from exactly those octets
+        h = shard[1]
+        rk = root(seed, h, "DH", b"", 512, 2048)
+        d = seams.Drbg(("C03sc", seed))
+        contents = [b"\x00" * 64, b"\xff" * 64, b"\x00" * 63 + b"\x01", b"\x01" + b"\x00" * 63, b"\x00" * 32 + d.bytes(32), d.bytes(32) + b"\x00" * 32, (b"KDSK" * 16), b" " * 64]
+        n = 0
+        for pos in ((5, 9), (0, 0), (31, 0), (5, 31), (0, 31)):
+            for ci, content in enumerate(contents):
+                for which in ("l2", "l1"):
+                    if which == "l1" and pos[1] != 31:
+                        continue
+                    l1k = content if which == "l1" else (d.bytes(64) if pos[0] or pos[1] == 31 else b"")
+                    l2k = content if which == "l2" else gkdi.kdf(h, l1k, gkdi.LABEL, gkdi.ctx(rk.rkid, 361, pos[0], 31), 64)
+                    if which == "l2" and pos[1] == 31:
+                        # at L2 = 31 the L2 key is a function of the L1 key: only consistent envelopes are legal, so the content goes into the L1 key
+                        continue
+                    env = G.GroupKeyEnvelope(version=1, flags=2, l0=361, l1=pos[0], l2=pos[1], root_key_identifier=rk.rkid, kdf_algorithm="SP800_108_CTR_HMAC",
+                                             kdf_parameters=gkdi.pack_kdf_params(h), secret_algorithm="DH", secret_parameters=rk.params(), private_key_length=512, public_key_length=2048,
+                                             domain_name="d", forest_name="f", l1_key=l1k, l2_key=l2k)
+                    nonce = d.bytes(32)
+                    case = ["seedcontent", h, list(pos), ci, which]
+                    try:
+                        kek_e, kek_d, kid, consumed = run_case(env, env, nonce)
+                    except Exception as e:  # noqa: BLE001
+                        acc.violate(f"exc.{type(e).__name__}", case, {"exc": repr(e)})
+                        continue
+                    judge(acc, case, kek_e, kek_d, kid, consumed, gkdi.kek_nonce(h, l2k, nonce), nonce)
+                    n += 1
+        acc.ev(n)
+        acc.nt_counted(n)
+        acc.sample({"mode": "nonce, seed keys with remarkable content", "hash": h})
+    elif kind == "dhwidths":
+        # ONE process, the same group and the same ephemeral values (hence equal p, g, y) under key lengths 2, 8, 16, 4, 2 in turn: a key
+        # blob is its padding too, nothing computed for one width may be served for another
+        for kl in (2, 8, 16, 4, 2):
+            shard_dh(G, shard[1], seed, acc, kl, SMALL_P, SMALL_G, 16, kl * 8, range(0, 1), range(0, 48), "dhwidths")
+        acc.sample({"mode": "DH small group, same public values at key lengths 2, 8, 16, 4, 2 in one process", "hash": shard[1]})
     elif kind == "dhbig":
         d = seams.Drbg(("C03big", seed))
         q = int("8CF83642A709A097B447997640129DA299B1A47D1EB3750BA308B0FE64F5FBD3", 16)
@@ -341,6 +382,13 @@ def replay(case, seed, acc) -> None:
         return
     if k == "nonce":
         shard_nonce(G, case[1], seed, acc)
+    elif k in ("dhwidths", "seedcontent"):
+        run_shard([k, case[1]], "quick", seed, acc)
+        for kk in list(acc.violations):
+            acc.violations[kk] = [e for e in acc.violations[kk] if e["case"] == case]
+            if not acc.violations[kk]:
+                del acc.violations[kk]
+        acc.violation_count = sum(len(v) for v in acc.violations.values())
     elif k.startswith("dhsmall"):
         shard_dh(G, case[1], seed, acc, case[2], SMALL_P, SMALL_G, 16 if k == "dhsmall" else int(k[8:]), case[2] * 8, [case[3]], [int(case[4])], k)
     elif k.startswith("dhbig"):
